@@ -32,6 +32,63 @@ CHECKS = {
          'and a variable-length value-sent/LSB field is rebuilt from its residue with exactly the residue consumed. Correspondence + '
          'RFC oracle on every size (thorough) or 0..400 + boundaries (quick), and field-level round trips with bits before and after.',
          'proof (arithmetic on bit lists) + model/code correspondence', '7 C17'),
+
+ 'C01': ('Theorems c01_* : for a packet descriptor and a rule that applies to it (matcher = applicability predicate, C04) and is lossless by '
+         'construction (rule_ok_dec: the five pairings, rule length 0 or the field length, sizes < 65536, well-formed mappings), compress '
+         'yields the RFC layout and decompress of it returns fields ++ payload; with compute fields under the premise that the compute '
+         'stage regenerates the carried values (C09); through cm_compress/cm_decompress for FIRST and BEST with prefix-free ids; the '
+         'parser tiling premise is discharged by C07 for all registry stacks. Tie: round trips executed on the implementation for all '
+         'parser configurations, every step compared with the extracted model (incl. the model parser).',
+         'proof by composition (layout, inversion, dispatch) + model/code correspondence', '7 C01'),
+ 'C02': ('Theorem c02_layout: whenever the declarative RFC 8724 section 7 layout is defined for (packet, rule, direction), compress returns '
+         'exactly it (rule id, residues in rule order incl. 4/12/28-bit sizes of variable-length residues, payload); no-compression rules '
+         'give id ++ packet. Tie: compress on parsed packets of every stack and synthetic descriptors vs extracted model vs independent '
+         'bit-string reference compressor.', 'proof by induction over the rule fields + model/code correspondence', '7 C02'),
+ 'C03': ('Theorems c03_*: from the residue the specification prescribes for a legal (descriptor, value) pair, followed by ANY bits, '
+         'decompress_field rebuilds the value and consumes exactly the residue (all CDAs, fixed/variable lengths over the three size '
+         'encodings, mappings with prefix-free indices of mixed width); lifted to all fields, to the whole packet with payload, with the '
+         'compute stage running over the rebuilt list. Tie: SCHC packets built by the harness from the RFC layout (never by the '
+         'library\'s compressor), incl. empty / non-aligned payloads, vs extracted model vs independent reference decompressor.',
+         'proof by induction over the rule fields + model/code correspondence', '7 C03'),
+ 'C04': ('Theorem c04_match: for typed rules the generator of the matcher equals the list of rules satisfying the applicability predicate '
+         'of the statement, in rule-set order (soundness, completeness, order in one equation); no-compression rules always apply. '
+         'Tie: near-miss mutants (one or two edits) x both directions x either padding side vs extracted model vs the predicate.',
+         'proof (matcher = filter of a declarative predicate) + model/code correspondence', '7 C04'),
+ 'C07': ('Theorems c07_*: for EVERY bit string, whenever a header parser accepts, its field values in order are exactly the first '
+         '(header length) bits and the header length does not exceed the buffer; for all 7 registry configurations fields ++ payload = input. '
+         'Tie: parse of well-formed packets and of the malformed stream (truncations, flips, overwritten length fields, random) vs extracted '
+         'model, tiling judged on the implementation incl. per-header reported lengths.', 'proof by loop invariants over fuelled parsers + model/code correspondence', '7 C07'),
+ 'C09': ('Theorems c09_*: each compute function of the model returns the RFC-defined value (RFC-side definitions written independently in '
+         'RfcChecksum.v): byte lengths, IPv4 header checksum and UDP checksum over IPv6/IPv4 pseudo-headers as one\'s complement arithmetic '
+         'modulo 65535 (fold with end-around carry proved equal to it), CRC-32c table entries equal to the bit-serial definition (complete '
+         'finite check lifted) and table-driven loop equal to the bit-serial register. Tie: compute functions called directly and through '
+         'decompress on packets with independently computed checksums incl. 0x0000/0xFFFF corner values vs extracted model.',
+         'proof (arithmetic mod 65535, GF(2) linearity of CRC) + model/code correspondence', '7 C09'),
+ 'C10': ('Theorems c10_*: FIRST = compress with the first applying rule (or the rule-match error); BEST = output of an applying rule, no '
+         'applying rule shorter, ties to the earliest; BEST <= FIRST; a no-compression rule always applies. Tie: ContextManager.compress on '
+         'rule sets of 1..8 rules x FIRST/BEST x Up/Dw vs extracted model (model parser+matcher+compressor) vs reference selection.',
+         'proof (list minimum with strict comparison) + model/code correspondence', '7 C10'),
+ 'C11': ('Theorems c11_*: with prefix-free ids of any lengths the rule whose id leads the bit string is returned whatever follows; no id a '
+         'prefix (incl. shorter strings) gives RuleIDMatchError; a returned rule is the first whose id is a prefix. Tie: every prefix code '
+         'of total length <= 5 (quick) / 6 (thorough) in every order x every string <= 7 bits, random codes to 16 bits.',
+         'proof (prefix comparability) + exhaustive small-scope correspondence', '7 C11'),
+ 'C14': ('Theorems c14_*: for EVERY bit string each header parser and each registry configuration of the model returns a descriptor or '
+         'ParserError: never Diverge (loops run on fuel = bit length + 1; each CoAP option consumes >= 8 bits, each SCTP chunk / parameter '
+         '>= 32), never another exception. Tie: malformed stream on the implementation with a 5 s limit per case vs extracted model.',
+         'proof of totality with explicit fuel + model/code correspondence', '7 C14'),
+ 'C15': ('Theorems c15_*: no applying rule gives RuleDescriptorMatchError under FIRST and BEST, an unparsable packet gives the parser\'s error, '
+         'no leading rule id gives RuleIDMatchError; the front end skips contexts signalling these errors in order, takes the first other '
+         'outcome, and returns the packet unchanged when none applies. Tie: manager error cases and front-end histories over 1..4 contexts '
+         'vs extracted model.', 'proof (case analysis of the front-end loops) + model/code correspondence', '7 C15'),
+ 'C18': ('Theorems c18_*: the descriptors used for direction d are exactly those marked d or Bi in rule order, by the matcher, compress and '
+         'decompress alike (same select function), and such a rule round-trips packets of direction d. Tie: rules with Up/Dw alternatives at '
+         'every position x both directions through the bare functions and the ContextManager vs extracted model.',
+         'proof (common selection function) + model/code correspondence', '7 C18'),
+ 'C20': ('Theorems c20_*: for rules well-formed for decompression (typed target values, compute fields with protocol lengths inside a '
+         'supported stack shape, bounded static bits) and EVERY bit string shorter than 65000 bytes, decompress returns a buffer; through the '
+         'manager: a buffer or RuleIDMatchError. The static bound is shown necessary by a witness. Tie: truncations, bit flips, size '
+         'escapes, random strings through ContextManager.decompress (5 s limit) vs extracted model.',
+         'proof of totality (per-function totality lemmas, shape invariant of the compute stage) + model/code correspondence', '7 C20'),
 }
 ALL = ['C%02d' % i for i in range(1, 21)]
 checks = []
